@@ -100,6 +100,7 @@ def _gen_request(rnd, rid, world, cer_template, universe, fc_owner_pool, big=Fal
     shared_fcs = world["fc_keys"][:2]
     pool = gen_expression_pool(rnd, (rc, hints, shared_fcs, package_kinds), size=(2, 5), depth=(0, 1), max_parts=2)
     owners = {}
+    extra_packages = {}
 
     def free_expr_factory():
         return "X"  # replaced below, per element
@@ -154,6 +155,17 @@ def _gen_request(rnd, rid, world, cer_template, universe, fc_owner_pool, big=Fal
                        ast, ("ta", second, ("k", own[1])))
         indicator = rnd.choice(["X", "Muss", "Muss", "Soll", "Kann"])
         element["e"] = f"{indicator} {render(ast)}"
+        if rnd.random() < 0.12 and len(own) == 1:
+            # the element's format constraint arrives only through a package: nothing in the expression text shows it
+            pkey = f"{700 + len(extra_packages)}P"
+            extra_packages[pkey] = rnd.choice([f"[{own[0]}]", f"[{rnd.choice(fulfilled_rc)}][{own[0]}]"] if fulfilled_rc
+                                              else [f"[{own[0]}]"])
+            element["e"] = f"{rnd.choice(['Muss', 'X', 'Kann'])} [{pkey}]"
+            element["expect_fc"] = own[0]
+        if rnd.random() < 0.1 and element["input"]:
+            element["vt"] = "DATETIME"
+            element["input"] = rnd.choice(["2022-12-31T23:00:00Z", "2023-03-26T22:00:00Z", "2021-01-01T05:00:00+00:00",
+                                           "2022-06-30T22:00:00Z"])
     # some elements carry the *same* expression (same format-constraint keys) as an earlier one, with another input:
     # anything remembered per key or per expression shows up here; such keys have no single owner (oracle 1 only)
     for index, element in enumerate(elements):
@@ -175,7 +187,9 @@ def _gen_request(rnd, rid, world, cer_template, universe, fc_owner_pool, big=Fal
                 if same_segment and rnd.random() < 0.6:
                     element["d"] = donor["d"]
     op = {"entry": "deep", "ahb": ahb, "soll": rnd.random() < 0.8}
-    return {"rid": rid, "start": 0, "cer": dict(cer_template, hints={k: f"H{k}@{rid}" for k in hints}), "op": op,
+    return {"rid": rid, "start": 0,
+            "cer": dict(cer_template, hints={k: f"H{k}@{rid}" for k in hints},
+                        packages=dict(cer_template.get("packages") or {}, **extra_packages)), "op": op,
             "owners": owners, "preset_text": "stale text of the caller" if rnd.random() < 0.35 else None}
 
 
